@@ -14,6 +14,7 @@ import (
 	"crypto/ed25519"
 	"encoding/json"
 	"fmt"
+	"math"
 	"math/rand"
 	"os"
 	"path/filepath"
@@ -668,7 +669,8 @@ func (r *nodeRun) mutate(c *cluster, obs *vnode, m storage.Message, otherRound s
 		if m.Event == "event_signing_start" {
 			var req requests.SigningBatchProposalStartRequest
 			if json.Unmarshal(m.Data, &req) == nil {
-				for _, rg := range [][2]int{{-1, 1}, {-3, -1}, {18630, 18635}, {7, 3}, {-2, 0}} {
+				// (… and ending far beyond it: the expansion is refused where it leaves the list, 18632, however far the range claims to go)
+				for _, rg := range [][2]int{{-1, 1}, {-3, -1}, {18630, 18635}, {7, 3}, {-2, 0}, {18000, math.MaxInt64}, {18600, 1 << 40}} {
 					y := clone()
 					q := req
 					q.SigningTasks = []requests.SigningTask{{MessageID: "hostile", File: "hostile", RangeStart: rg[0], RangeEnd: rg[1]}}
